@@ -50,14 +50,14 @@ FLOORS = {
                            "rule:trim_blocks": 6000, "rule:lstrip_blocks": 4500,
                            "rule:plus-cancels-trim": 3000, "rule:plus-cancels-lstrip": 3000,
                            "raw_body_cases": 8000}},
-    "thorough": {"evaluations": 2500000, "distinct": 20000,
-                 "counters": {"renders": 2500000, "oracle_model": 2500000,
-                              "oracle_nonws": 2500000, "cases_n1": 8000, "cases_n2": 400000,
-                              "cases_n3": 1500000, "cases_random": 200000,
-                              "rule:minus-left": 500000, "rule:minus-right": 500000,
-                              "rule:trim_blocks": 100000, "rule:lstrip_blocks": 100000,
-                              "rule:plus-cancels-trim": 20000, "rule:plus-cancels-lstrip": 20000,
-                              "raw_body_cases": 100000}},
+    "thorough": {"evaluations": 500000, "distinct": 10000,
+                 "counters": {"renders": 500000, "oracle_model": 500000,
+                              "oracle_nonws": 500000, "cases_n1": 30000, "cases_n2": 130000,
+                              "cases_n3": 200000, "cases_random": 50000,
+                              "rule:minus-left": 450000, "rule:minus-right": 450000,
+                              "rule:trim_blocks": 60000, "rule:lstrip_blocks": 80000,
+                              "rule:plus-cancels-trim": 45000, "rule:plus-cancels-lstrip": 70000,
+                              "raw_body_cases": 55000}},
 }
 
 SETTINGS = [(False, False), (False, True), (True, False), (True, True)]
@@ -185,7 +185,7 @@ def run(ctx):
             idx += 1
             if not ctx.mine(idx):
                 continue
-            if not quick and ctx.elapsed() > ctx.budget_s * 0.3:
+            if not quick and ctx.elapsed() > ctx.budget_s * 0.5:
                 complete = False
                 ctx.count("exhaustive_n2_cut")
                 break
@@ -218,7 +218,7 @@ def run(ctx):
         if not ctx.mine(idx):
             continue
         done3 += 1
-        if done3 > 100 and ctx.elapsed() > ctx.budget_s * (0.6 if quick else 0.8):
+        if done3 > 100 and ctx.elapsed() > ctx.budget_s * (0.6 if quick else 0.85):
             complete3 = False
             ctx.count("n3_time_cut")
             break
